@@ -12,7 +12,8 @@ Open Scope Z_scope.
    well-formed, run to completion, the target holds the operator's meaning, the
    other side of a swap holds the old target, the operand reads as before, and no
    other score, storage value or trace entry changes.
-   Excluded (see C01_refuted_intmin): += / -= with the literal -2147483648. *)
+   Full strength: no literal is excluded (the INT_MIN case of += / -= was a defect of
+   the pinned tree, repaired by a `fix:` commit; see known_findings.json "fixed"). *)
 Theorem C01_varop_correct :
   forall ft env nm t o r cmds ints st,
     compile_varop nm t o r = Some (cmds, ints) ->
@@ -30,17 +31,12 @@ Theorem C01_load_establishes_loaded :
 Proof. exact load_ints_loaded. Qed.
 Print Assumptions C01_load_establishes_loaded.
 
-(* Full statement is false at one point of the pinned tree: `$x += -2147483648`
-   (and `-=`) emit `scoreboard players remove/add … 2147483648`, not a valid command. *)
-Theorem C01_refuted_intmin :
-  exists nm t o cmds ints,
-    (o = VAdd \/ o = VSub) /\
-    compile_varop nm t o (OLit INT_MIN) = Some (cmds, ints) /\ forallb wf_cmd cmds = false.
-Proof.
-  exists default_names, ("$x"%string, "__variable__"%string), VAdd. eexists. eexists.
-  split; [now left|]. split; [reflexivity|]. vm_compute. reflexivity.
-Qed.
-Print Assumptions C01_refuted_intmin.
+(* Regression witness of the repaired defect: `$x += -2147483648` must not emit
+   `scoreboard players remove … 2147483648` (not a valid command). *)
+Example C01_intmin_wf :
+  forall nm t o cmds ints, (o = VAdd \/ o = VSub) ->
+    compile_varop nm t o (OLit INT_MIN) = Some (cmds, ints) -> forallb wf_cmd cmds = true.
+Proof. intros nm t o cmds ints [-> | ->] H; cbn in H; injection H as <- <-; reflexivity. Qed.
 
 (* Non-vacuity: the hypotheses are met by a concrete state and statement, and the
    conclusion computes to the expected number (floor division, negative divisor). *)
